@@ -906,10 +906,10 @@ func HandleStore(deps ServerDeps, conn net.Conn, tag string, parts []string, sta
 			cleanedFlagsStr := flagSetToString(cleanedFlags)
 
 			// Move to Spam folder
-			err = MoveMessageToMailbox(userDB, messageID, state.SelectedMailboxID, uid, "Spam", targetUserID, cleanedFlagsStr, internalDate)
+			moved, err := MoveMessageToMailbox(userDB, messageID, state.SelectedMailboxID, uid, "Spam", targetUserID, cleanedFlagsStr, internalDate)
 			if err != nil {
 				log.Printf("Failed to move message %d to Spam: %v", messageID, err)
-			} else {
+			} else if moved {
 				log.Printf("Auto-moved message %d to Spam folder (Junk flag added)", messageID)
 				// Send EXPUNGE notification to tell client the message is gone from this mailbox
 				if !silent {
@@ -924,10 +924,10 @@ func HandleStore(deps ServerDeps, conn net.Conn, tag string, parts []string, sta
 			cleanedFlagsStr := flagSetToString(cleanedFlags)
 
 			// Move to INBOX
-			err = MoveMessageToMailbox(userDB, messageID, state.SelectedMailboxID, uid, "INBOX", targetUserID, cleanedFlagsStr, internalDate)
+			moved, err := MoveMessageToMailbox(userDB, messageID, state.SelectedMailboxID, uid, "INBOX", targetUserID, cleanedFlagsStr, internalDate)
 			if err != nil {
 				log.Printf("Failed to move message %d to INBOX: %v", messageID, err)
-			} else {
+			} else if moved {
 				log.Printf("Auto-moved message %d to INBOX (NonJunk flag added)", messageID)
 				// Send EXPUNGE notification to tell client the message is gone from this mailbox
 				if !silent {
@@ -1184,7 +1184,8 @@ func HandleCopy(deps ServerDeps, conn net.Conn, tag string, parts []string, stat
 
 // MoveMessageToMailbox moves a message from the current mailbox to a destination mailbox
 // The entry to move is identified by its UID in the source mailbox
-func MoveMessageToMailbox(userDB *sql.DB, messageID int64, sourceMailboxID int64, sourceUID int64, destMailboxName string, userID int64, flags string, internalDate string) error {
+// Returns false if the message already is in the destination mailbox and was left where it is
+func MoveMessageToMailbox(userDB *sql.DB, messageID int64, sourceMailboxID int64, sourceUID int64, destMailboxName string, userID int64, flags string, internalDate string) (bool, error) {
 	// Get destination mailbox ID
 	var destMailboxID int64
 	err := userDB.QueryRow(`
@@ -1193,18 +1194,18 @@ func MoveMessageToMailbox(userDB *sql.DB, messageID int64, sourceMailboxID int64
 	`, destMailboxName, userID).Scan(&destMailboxID)
 
 	if err != nil {
-		return fmt.Errorf("destination mailbox not found: %w", err)
+		return false, fmt.Errorf("destination mailbox not found: %w", err)
 	}
 
 	// Don't move if already in the destination mailbox
 	if sourceMailboxID == destMailboxID {
-		return nil
+		return false, nil
 	}
 
 	// Begin transaction
 	tx, err := userDB.Begin()
 	if err != nil {
-		return fmt.Errorf("failed to begin transaction: %w", err)
+		return false, fmt.Errorf("failed to begin transaction: %w", err)
 	}
 	defer func() { _ = tx.Rollback() }()
 
@@ -1217,7 +1218,7 @@ func MoveMessageToMailbox(userDB *sql.DB, messageID int64, sourceMailboxID int64
 	`, destMailboxID).Scan(&nextUID)
 
 	if err != nil {
-		return fmt.Errorf("failed to get next UID: %w", err)
+		return false, fmt.Errorf("failed to get next UID: %w", err)
 	}
 
 	// Insert message into destination mailbox (preserve flags and internal date)
@@ -1227,13 +1228,13 @@ func MoveMessageToMailbox(userDB *sql.DB, messageID int64, sourceMailboxID int64
 	`, messageID, destMailboxID, nextUID, flags, internalDate)
 
 	if err != nil {
-		return fmt.Errorf("failed to insert into destination: %w", err)
+		return false, fmt.Errorf("failed to insert into destination: %w", err)
 	}
 
 	// Advance the destination's UID counter past the UID just assigned
 	_, err = tx.Exec("UPDATE mailboxes SET uid_next = ? WHERE id = ?", nextUID+1, destMailboxID)
 	if err != nil {
-		return fmt.Errorf("failed to advance UID counter: %w", err)
+		return false, fmt.Errorf("failed to advance UID counter: %w", err)
 	}
 
 	// Delete message from source mailbox
@@ -1243,16 +1244,16 @@ func MoveMessageToMailbox(userDB *sql.DB, messageID int64, sourceMailboxID int64
 	`, sourceMailboxID, sourceUID)
 
 	if err != nil {
-		return fmt.Errorf("failed to delete from source: %w", err)
+		return false, fmt.Errorf("failed to delete from source: %w", err)
 	}
 
 	// Commit transaction
 	err = tx.Commit()
 	if err != nil {
-		return fmt.Errorf("failed to commit transaction: %w", err)
+		return false, fmt.Errorf("failed to commit transaction: %w", err)
 	}
 
-	return nil
+	return true, nil
 }
 
 // ===== APPEND =====
